@@ -20,7 +20,6 @@ NA = {
 PENDING = {
     "C05": "claimed in DESIGN.md (engine job) but the check is not built yet; listed here until it is",
     "C06": "claimed in DESIGN.md (engine job, scoped) but the check is not built yet; listed here until it is",
-    "C17": "claimed in DESIGN.md (engine loc) but the check is not built yet; listed here until it is",
 }
 
 CHECKS = {
@@ -46,6 +45,16 @@ CHECKS = {
                 note="Trusted: the stub tools' minimum contract (DESIGN.md 5.1), prefix relocation of container paths, the 40-line "
                      "reference model. Unspecified behaviour (rebuild in a dirty directory, -r without build, -c -r) is not asserted.",
                 technique="deterministic simulation: script under stub tools on PATH, fault plan per tool call, reference model over invocation histories"),
+    "C17": dict(engine="loc", level="fault_enumeration", design="6",
+                text="LocalDataset (all three backends) runs end to end against a vendored stand-in python_on_whales whose docker.run "
+                     "plays a container plan (stream chunks, result file at a chosen instant, DockerException before any chunk or at "
+                     "exit) or really runs the generated runner.sh under stub tools. Container outcome x file-list class x image "
+                     "source x output directory x process start state is enumerated; seeded multi-execution histories with I/O "
+                     "faults and concurrent starts are sampled. A reference function predicts the docker call and outcome class.",
+                note="Trusted: the stand-in's rendering of python_on_whales' documented docker.run(stream=True) contract; "
+                     "tempfile.tempdir=None in a forked child as model of a fresh interpreter. Which of two docker metadata wins "
+                     "is not stated by the property and not asserted.",
+                technique="deterministic simulation: in-process fake docker playing seeded container plans + I/O fault seams, reference outcome model"),
 }
 
 ENGINES = [
@@ -53,6 +62,8 @@ ENGINES = [
      "kind_free_text": "translator as a long-lived service: seeded histories, injected I/O errors and aborts, fresh-process reference"},
     {"name": "run", "path": "sim/run", "serves_properties": ["C16"],
      "kind_free_text": "rendered runner.sh in a simulated container: stub experiment tools on PATH, per-call fault plan, invocation histories"},
+    {"name": "loc", "path": "sim/loc", "serves_properties": ["C17"],
+     "kind_free_text": "LocalDataset against a simulated docker (vendored stand-in python_on_whales), optionally chained into the run engine"},
 ]
 
 
